@@ -80,6 +80,30 @@ def inline(node, defs, depth=0):
     return T().visit(copy.deepcopy(node))
 
 
+def inline_helpers(node, mod, depth=0):
+    """replace calls of same-module helper functions whose body is [single-assignment locals] + `return <expr>` by that expression (arguments substituted)"""
+    if depth > 3 or mod is None:
+        return node
+    import copy
+
+    class T(ast.NodeTransformer):
+        def visit_Call(self, n):
+            self.generic_visit(n)
+            if isinstance(n.func, ast.Name) and n.func.id in getattr(mod, 'funcs', {}) and not n.keywords:
+                f = mod.funcs[n.func.id]
+                body = [s for s in f.body if not (isinstance(s, ast.Expr) and isinstance(s.value, ast.Constant))]
+                params = [a.arg for a in f.args.args]
+                if body and isinstance(body[-1], ast.Return) and body[-1].value is not None and all(isinstance(s, ast.Assign) for s in body[:-1]) \
+                        and len(params) == len(n.args) and not f.args.vararg and not f.args.kwarg and not any(isinstance(x, (ast.Lambda, ast.IfExp)) for x in ast.walk(body[-1].value)):
+                    defs = body_defs(body[:-1])
+                    if any(v is None for v in defs.values()) or set(defs) & set(params):
+                        return n
+                    defs.update({p: a for p, a in zip(params, n.args)})
+                    return inline_helpers(inline(body[-1].value, defs), mod, depth + 1)
+            return n
+    return T().visit(copy.deepcopy(node))
+
+
 def body_defs(stmts):
     out = {}
     for s in stmts:
@@ -104,6 +128,7 @@ def classify_action(stmts, L, R, rule, mod):
         elif isinstance(val.body, ast.Constant) and val.body.value is None:
             guard, val = val.test, val.orelse
     e = inline(val, defs)
+    e = inline_helpers(e, mod if hasattr(mod, 'funcs') else None)
     if guard is not None:
         g = inline(guard, defs)
         names = {n.id for n in ast.walk(g) if isinstance(n, ast.Name)} - {'isinstance', 'complex', 'math', 'float', 'int'}
@@ -150,6 +175,14 @@ def classify_action(stmts, L, R, rule, mod):
             for dt_side, td_side in ((l, r), (r, l)):
                 if isinstance(td_side, ast.Call) and (call_name(td_side) or '').endswith('timedelta') and norm(dt_side) in (L, R):
                     return ('dtplus-unnormalised', norm(e))
+    # datetime + timedelta on a zone-converted operand
+    for n in ast.walk(e):
+        if isinstance(n, ast.BinOp) and isinstance(n.op, ast.Add):
+            for dt_side, td_side in ((n.left, n.right), (n.right, n.left)):
+                if isinstance(td_side, ast.Call) and (call_name(td_side) or '').endswith('timedelta') and 'value_normalize_datetime(' in norm(dt_side) \
+                        and any(isinstance(x, ast.Attribute) and x.attr in ('astimezone', 'timestamp', 'utctimetuple', 'utcoffset') for x in ast.walk(dt_side)):
+                    return ('dtplus-altered', f'{norm(n)[:100]}: the milliseconds are added to a zone-converted instant; datetime - datetime is naive local arithmetic, so (d + n) - d != n '
+                                              f'when the sum crosses a UTC-offset change')
     # datetime - datetime: contains normalize(L) - normalize(R), total_seconds, factor 1000
     txt = norm(e)
     subs = [n for n in ast.walk(e) if isinstance(n, ast.BinOp) and isinstance(n.op, ast.Sub)
@@ -205,6 +238,7 @@ _CLASSIFY_CACHE = {}
 
 def check_table(chk, ee, bs):
     L, R = bs.left, bs.right
+    pending = []
     for op in ARITH:
         stmts = bs.branch(op, ALL_BINARY)
         if stmts is None:
@@ -231,7 +265,15 @@ def check_table(chk, ee, bs):
                     chk.ok('C03.T', f"'{op}' on ({a}, {b}) -> {'/'.join(got)}", trivial=(want == ('null',)))
                 else:
                     mismatches.setdefault((got, want), []).append((a, b))
+        pending.append((op, stmts, mismatches))
+    kinds = {got[0] for _op, _st, mm in pending for (got, _w) in mm}
+    both_aware = {'dtplus-altered', 'dtminus-altered'} <= kinds
+    for op, stmts, mismatches in pending:
         for (got, want), pairs in mismatches.items():
+            if both_aware and got[0] in ('dtplus-altered', 'dtminus-altered'):
+                # + and - BOTH work on zone-converted instants: elapsed-time arithmetic on both sides may be consistent ((d + n) - d = n); not decided here
+                chk.unrec('C03.T', f'operator {op} on datetimes converts through the time zone on both + and -: whether (d + n) - d = n still holds is not decided', ee.mod.rel)
+                continue
             ex = ', '.join(f'{a} {op} {b}' for a, b in pairs[:4])
             if want == ('null',):
                 what = (f"operator {op} is applied to operand types it does not support ({ex}{' ...' if len(pairs) > 4 else ''}): the language defines the result as null, "
